@@ -136,6 +136,10 @@ def run(ctx, selftest=False):
     ctx.sample(traces[0]); ctx.sample(traces[-1]); ctx.sample(traces[len(traces) // 2])
     verdicts = ctx.validate("DiagnosticsTrace", traces)
     ctx.judge(traces, verdicts)
+    # the diagnostics under every short HISTORY of calls on one sample object (spec/History.tla): other data sets, replaced
+    # log-probability columns, copies - the answer may depend on the content only
+    from .. import history
+    history.check(ctx, "samples", {"C19"}, ("C19.",), selftest=selftest)
     if selftest or not quick:
         _selftest(ctx, traces)
 
